@@ -1834,7 +1834,7 @@ func (c *DefaultCtx) configDependentPaths() {
 	c.path = append(c.path[:0], c.pathOriginal...)
 	// If UnescapePath enabled, we decode the path and save it for the framework user
 	if c.app.config.UnescapePath {
-		c.path = fasthttp.AppendUnquotedArg(c.path[:0], c.path)
+		c.path = unescapePathInPlace(c.path)
 	}
 
 	// another path is specified which is for routing recognition only
@@ -1857,6 +1857,36 @@ func (c *DefaultCtx) configDependentPaths() {
 			int(c.detectionPath[1])<<8 |
 			int(c.detectionPath[2])
 	}
+}
+
+// unescapePathInPlace decodes the %XX sequences of a path. Unlike in query arguments, a '+' in a path is a plus.
+func unescapePathInPlace(p []byte) []byte {
+	unhex := func(c byte) int {
+		switch {
+		case c >= '0' && c <= '9':
+			return int(c - '0')
+		case c >= 'a' && c <= 'f':
+			return int(c-'a') + 10
+		case c >= 'A' && c <= 'F':
+			return int(c-'A') + 10
+		default:
+			return -1
+		}
+	}
+	dst := 0
+	for src := 0; src < len(p); src++ {
+		if p[src] == '%' && src+2 < len(p) {
+			if hi, lo := unhex(p[src+1]), unhex(p[src+2]); hi >= 0 && lo >= 0 {
+				p[dst] = byte(hi<<4 | lo)
+				dst++
+				src += 2
+				continue
+			}
+		}
+		p[dst] = p[src]
+		dst++
+	}
+	return p[:dst]
 }
 
 // IsProxyTrusted checks trustworthiness of remote ip.
